@@ -3,7 +3,7 @@ CONSTANTS
   EPs = {"execservice", "graffiti", "builderbid", "proposalbest", "proposer", "attester", "aggregator", "syncmessenger", "syncaggregator", "mergeduties", "cacheevents", "submitclassify"}
   MaxCalls = 8
   MaxInFlight = 2
-INVARIANTS TypeOK KeepsRunning EndsProperly HistoryIndependent BoundedOverlap
+INVARIANTS TypeOK KeepsRunning EndsProperly HistoryIndependent AuxFaultsSurvived BoundedOverlap
 CONSTRAINT HWM
 POSTCONDITION TraceAccepted
 CHECK_DEADLOCK FALSE
